@@ -23,7 +23,7 @@ var guardTable = map[string][]string{
 
 func checkC02(r *Run) propMeta {
 	meta := propMeta{Level: "other",
-		Explanation: "Decides two structural necessary conditions of result-preserving optimisation: (R1) guard slice — for each armed lowering decision type, the union of query-model fields read by the conditions that control its construction site (enclosing conditions, preceding exit guards, the functions those conditions call, and the same for callers up the call chain) contains every model fact the lowering's soundness depends on (LIMIT pushdown: limit/skip/order/distinct, single reading clause, no updating clause, not OPTIONAL, not allShortestPaths; exact-range expansion: not (all)shortestPath, direction not both, no relationship variable, range, not OPTIONAL); dropping one of these tests makes the lowering fire for queries whose result it changes; (R2) private copy — optimiser rules only ever see cypher.Copy(query) (shared with C05-R3). (R3) usage classifiers — in an eligibility collector that classifies every occurrence of a variable through an if/else chain of counters, the only branch allowed to count nothing is the one that matches the variable's declaration position (Alias/Variable field of its parent); a non-counting branch for an occurrence in an expression field exempts a read. (R4) set before toggle — a boolean field that is both set absolutely and toggled (TraversalStep.PathReversed: set by the optimiser's pattern reversal, toggled by each direction flip) is never set after a call that can reach a toggler, so a flip is never overwritten. The other lowering decision types are listed as unarmed. NOT decided: equivalence of optimised and unoptimised SQL over all graphs — that is program equivalence and out of reach for this technique.",
+		Explanation: "Decides two structural necessary conditions of result-preserving optimisation: (R1) guard slice — for each armed lowering decision type, the union of query-model fields read by the conditions that control its construction site (enclosing conditions, preceding exit guards, the functions those conditions call, and the same for callers up the call chain) contains every model fact the lowering's soundness depends on (LIMIT pushdown: limit/skip/order/distinct, single reading clause, no updating clause, not OPTIONAL, not allShortestPaths; exact-range expansion: not (all)shortestPath, direction not both, no relationship variable, range, not OPTIONAL); dropping one of these tests makes the lowering fire for queries whose result it changes; (R2) private copy — optimiser rules only ever see cypher.Copy(query) (shared with C05-R3). (R3) usage classifiers — in an eligibility collector that classifies every occurrence of a variable through an if/else chain of counters, the only branch allowed to count nothing is the one that matches the variable's declaration position (Alias/Variable field of its parent); a non-counting branch for an occurrence in an expression field exempts a read. (R4) set before toggle — a boolean field that is both set absolutely and toggled (TraversalStep.PathReversed: set by the optimiser's pattern reversal, toggled by each direction flip) is never set after a call that can reach a toggler, so a flip is never overwritten. (R5) reversal bindings — the pattern reversal sees, as bound, the symbols of earlier pattern parts of the same MATCH and the aliases of a preceding WITH. The other lowering decision types are listed as unarmed. NOT decided: equivalence of optimised and unoptimised SQL over all graphs — that is program equivalence and out of reach for this technique.",
 		Assumptions: []string{"the guard table lists the facts confirmed by reading each eligibility predicate; it is a necessary, not sufficient, set"},
 		TrustedBase: []string{"go/types", "this analyser"}}
 	if err := r.Load("./cypher/...", "./graph/..."); err != nil {
@@ -90,6 +90,7 @@ func checkC02(r *Run) propMeta {
 	checkUsageClassifiers(r)
 	checkSetBeforeToggle(r, cg)
 	checkReversalSeesEarlierParts(r, op, cg)
+	checkWithCarryReadsAlias(r, op, cg)
 	r.Floor("C02-R1-guard-slice", 12)
 	return meta
 }
